@@ -395,10 +395,9 @@ fn add_pltotf_error_context(pl_source: &str, error_message: String, error_point:
         let num_lines = line_index + 1;
         return format!("{error_message} (line {num_lines}).\n...) \n    ...",);
     }
-    let line = pl_source
-        .lines()
-        .nth(line_index)
-        .expect("we know there are line_index+1 lines in the file");
+    // If the source ends with a newline character and the error is reported at the very end
+    // of the source, the error is on a final empty line that str::lines does not return.
+    let line = pl_source.lines().nth(line_index).unwrap_or("");
     let start = &line[..line_offset];
     let end = &line[line_offset..];
     let line_number = line_index + 1;
